@@ -235,6 +235,11 @@ func (s *Std) BlockCases() []P2PCase {
 	add("first block of the next epoch on an older parent (context advanced across the boundary)", ExpAccept, ((slot/c.SlotsPerEpoch)+1)*c.SlotsPerEpoch, 0, nil,
 		mk(s.Head, ((slot/c.SlotsPerEpoch)+1)*c.SlotsPerEpoch, nil, false))
 	add("block on the near fork", ExpAccept, slot, 0, nil, mk(s.NearFork, slot, nil, false))
+	add("slot not after the parent's slot (validly signed by the proposer of that slot)", ExpNotAccept, slot, 0, nil, mk(s.Head, slot, func(m *MutCtx) {
+		par := s.V.Blocks[common.Root(m.SB.Message.ParentRoot)]
+		m.SB.Message.Slot = par.Slot
+		m.SB.Message.ProposerIndex = par.Signed.Message.ProposerIndex
+	}, true))
 	add("unknown parent", ExpIgnore, slot, 0, nil, mk(s.Head, slot, func(m *MutCtx) { m.SB.Message.ParentRoot = flip(m.SB.Message.ParentRoot) }, true))
 	add("signature by another validator", ExpNotAccept, slot, 0, nil, mk(s.Head, slot, func(m *MutCtx) {
 		other := (m.SB.Message.ProposerIndex + 1) % uint64(len(m.Pre.Validators))
@@ -705,8 +710,29 @@ func (s *Std) OperationCases() []P2PCase {
 		decodeInto(w.Spec, refssz.Encode(&as, c.Params()), &out)
 		return &out
 	}
+	// two different index sets; each attestation signed by its own indices
+	mkAS2 := func(v1, v2 []uint64) *phase0.AttesterSlashing {
+		d1 := refspec.AttestationData{Slot: now - 1, BeaconBlockRoot: sha256.Sum256([]byte("x1")), Target: refspec.Checkpoint{Epoch: c.EpochAtSlot(now - 1), Root: sha256.Sum256([]byte("t1"))}}
+		d2 := d1
+		d2.Target.Root = sha256.Sum256([]byte("t2"))
+		as := refspec.AttesterSlashing{Attestation1: refspec.IndexedAttestation{AttestingIndices: v1, Data: d1, Signature: w.signAtt(pre, &d1, v1)},
+			Attestation2: refspec.IndexedAttestation{AttestingIndices: v2, Data: d2, Signature: w.signAtt(pre, &d2, v2)}}
+		var out phase0.AttesterSlashing
+		decodeInto(w.Spec, refssz.Encode(&as, c.Params()), &out)
+		return &out
+	}
 	runAS := func(a *phase0.AttesterSlashing) func(v *View) gossipval.GossipValidatorResult {
-		return func(v *View) gossipval.GossipValidatorResult { return gossipval.ValidateAttesterSlashing(context.Background(), a, v) }
+		return func(v *View) gossipval.GossipValidatorResult {
+			// the validator only reads the message: its bytes are the same afterwards
+			var before, after bytes.Buffer
+			a.Serialize(w.Spec, codec.NewEncodingWriter(&before))
+			res := gossipval.ValidateAttesterSlashing(context.Background(), a, v)
+			a.Serialize(w.Spec, codec.NewEncodingWriter(&after))
+			if !bytes.Equal(before.Bytes(), after.Bytes()) {
+				return gossipval.GossipValidatorResult{Result: gossipval.GossipValidatorCode(99), Err: fmt.Errorf("the validator modified the message it was given (verdict was %s)", res.Result)}
+			}
+			return res
+		}
 	}
 	vs := []uint64{victim - 1, victim}
 	has := runAS(mkAS(vs, true, vs))
@@ -719,6 +745,14 @@ func (s *Std) OperationCases() []P2PCase {
 	addAS("not slashable (same data)", ExpNotAccept, nil, runAS(mkAS(vs, false, vs)))
 	addAS("signed by only one of the two", ExpNotAccept, nil, runAS(mkAS(vs, true, vs[:1])))
 	addAS("unsorted indices", ExpNotAccept, nil, runAS(mkAS([]uint64{victim, victim - 1}, true, vs)))
+	// different index sets: the slashable validators are the intersection
+	a3, b3, c3 := victim-2, victim-1, victim
+	addAS("attestation 1 has an extra voter before the common ones", ExpAccept, nil, runAS(mkAS2([]uint64{a3, b3, c3}, []uint64{b3, c3})))
+	addAS("attestation 2 has an extra voter before the common ones", ExpAccept, nil, runAS(mkAS2([]uint64{b3, c3}, []uint64{a3, b3, c3})))
+	addAS("one common voter, others differ", ExpAccept, nil, runAS(mkAS2([]uint64{a3, c3}, []uint64{b3, c3})))
+	addAS("one common voter in the middle", ExpAccept, nil, runAS(mkAS2([]uint64{a3, b3}, []uint64{b3, c3})))
+	addAS("disjoint voters (nobody is slashable)", ExpNotAccept, nil, runAS(mkAS2([]uint64{a3}, []uint64{b3, c3})))
+	addAS("common voter already seen, the others are not common", ExpIgnore, []string{fmt.Sprintf("as/%d", b3)}, runAS(mkAS2([]uint64{a3, b3}, []uint64{b3, c3})))
 	return out
 }
 
